@@ -23,7 +23,9 @@ Inductive case :=
 | CArgSize (desc : str) (r : real)                    (* invokeinterface with this descriptor: what the class WRITER did *)
 | CUnesc (cell : str) (r : real) (got : str)          (* tiny v2 class comment cell and the comment the reader stored, both as UTF-8 bytes *)
 | CText (kind n : N) (input : list N) (r : real)      (* a whole text file (bytes): 0 tiny v2 with n namespaces, 1 tiny diff, 2 Enigma, 3 nests *)
-| CClass (bytes : list N) (r : real).                 (* a whole class file: what duke::read_class did with it *)
+| CClass (bytes : list N) (r : real)                  (* a whole class file: what duke::read_class did with it *)
+| CClassV (bytes : list N) (r : real) (no_members decline_code unit skim decline : bool).
+    (* ... and whether read_class_multi accepted it with each of five other visitors (no panic anywhere) *)
 
 (* the model's answer and the observed one agree exactly *)
 Definition same {A} (m : out A) (r : real) : bool :=
@@ -75,4 +77,8 @@ Definition check (c : case) : bool :=
       same (if k =? 0 then tiny_v2_out (N.to_nat n) input else if k =? 1 then tiny_diff_out input
             else if k =? 2 then enigma_out input else nests_out input) r
   | CClass bytes r => same (read_class_out bytes) r     (* the WHOLE class reader, exact outcome class *)
+  | CClassV bytes r nm dc un sk de =>
+      let accepts (v : vis) (b : bool) := match read_class_with v bytes with Done _ => b | Fail => negb b | Panic => false end in
+      same (read_class_out bytes) r && accepts no_members_vis nm && accepts decline_code_vis dc && accepts unit_vis un
+      && accepts skim_vis sk && accepts decline_vis de
   end.
